@@ -514,6 +514,9 @@ def rule_R9(ctx):
                 v = T.expand_upvars(P, b, a[-1], depth=6)
                 drops = sorted({T.short(x[1]) for x in T.calls_in(v) if x[1].endswith(("::filter", "::take_if", "::and_then", "::filter_map", "::xor", "::zip", "::then", "::then_some"))})
                 fromv = any(x[0] == "field" and x[2] == "value" for x in T.walk(v))
+                # the same droppers written out as a `match` (or inlined from a new closure): the value is merged with a fresh `None`
+                if any(x[0] == "phi" and any(T.strip(y)[0] == "agg" and T.strip(y)[3] == "None" for y in x[1]) for x in T.walk(v)):
+                    drops = sorted(set(drops) | {"a branch that replaces the value by None"})
                 ctx.check(fromv and not drops, "R9", "%s:value-as-parsed" % T.short(path).split("::")[-1], "horder value = header.value",
                           "the value recorded in the header order goes through %s: a header with a particular value (e.g. an empty one) is rendered as if it had none "
                           "(`Name` instead of `Name=[]`)" % (",".join(drops) or "something other than header.value"), ctx.loc(b, blk))
